@@ -817,11 +817,8 @@ class Selector(cssutils.util.Base2):
         glued = None
         for t in tokenizer:
             rest = t[1][2:]
-            if (
-                glued
-                and t[0] == IDENT
-                and (t[2], t[3]) == (glued[2], glued[3] + len(glued[1]))
-            ):
+            if glued and t[0] == IDENT:
+                # (white space or a comment would be a token of its own)
                 # "u+div" came as "u+d" and "iv"
                 tokens[-1] = (IDENT, glued[1] + t[1], glued[2], glued[3])
                 glued = None
